@@ -47,6 +47,7 @@ func main() {
 	runGrayRows()
 	runValleyTies()
 	runWideGrayRows()
+	runHistogramShapes()
 	runBinHistories()
 	runBitmapViews()
 	chk.Finish()
@@ -233,7 +234,7 @@ func replay(path string) {
 	l := chk.NewLocal()
 	defer l.Merge()
 	switch raw["Part"] {
-	case "grayrow":
+	case "grayrow", "grayrow-shape":
 		var c grayCase
 		mc.LoadReplay(path, &c)
 		fmt.Printf("replay grey row %v (%s, %s)\n", c.Row, c.Source, c.Bin)
